@@ -764,6 +764,69 @@ class LossScenario(explore.Scenario):
 ALL = LossScenario.EVENTS
 
 
+def run_long_lived_loss(gap, timeouts):
+    """call A outstanding while gap-1 further messages are built in the
+    process, then call B, then the connection is lost: both fail once with
+    the reason and no timer stays"""
+    from mcx import scale
+    viol = []
+    cw = fakes.ClientWorld()
+    try:
+        cw.sent()
+        conn = cw.conn
+        results = {'A': [], 'B': []}
+        serials = {}
+
+        def call(tag, timeout):
+            d = conn.callRemote('/o', 'Get' + tag, interface='a.b',
+                                destination='c.d', timeout=timeout)
+            d.addBoth(lambda r: results[tag].append(
+                ('err', type(r.value).__name__, str(r.value))
+                if hasattr(r, 'value') else ('ok', r)))
+            serials[tag] = cw.sent()[0]['serial']
+        call('A', timeouts[0])
+        scale.build_messages(gap - 1)
+        call('B', timeouts[1])
+        reason = fakes.lost_reason('long-lived')
+        conn.connectionLost(reason)
+        left = [c for c in cw.clock.getDelayedCalls() if c.active()]
+        cw.clock.advance(1000)
+        want = ('err', type(reason.value).__name__, str(reason.value))
+        if results != {'A': [want], 'B': [want]}:
+            viol.append(('long-lived-loss/%s' % (
+                'same-serial' if serials['A'] == serials['B'] else
+                'completions'),
+                'call A (serial %d) outstanding, %d messages built, call B '
+                '(serial %d), connection lost: the calls ended with %r, '
+                'expected each to fail once with %r'
+                % (serials['A'], gap - 1, serials['B'], results, want)))
+        if left:
+            viol.append(('long-lived-loss/timer-left',
+                         '%d timer(s) still armed after the loss (gap %d, '
+                         'timeouts %r)' % (len(left), gap, timeouts)))
+    except Exception as e:
+        viol.append(('long-lived-loss/raises-%s' % type(e).__name__,
+                     'gap %d: raised %r' % (gap, e)))
+    finally:
+        cw.close()
+    return viol
+
+
+def _task_long_lived(gap):
+    res = core.Result()
+    for timeouts in ((None, None), (5, None), (None, 5), (5, 7)):
+        res.count('states')
+        res.count('transitions', gap + 3)
+        res.count('evaluations')
+        res.count('nontrivial')
+        for t, w in run_long_lived_loss(gap, timeouts):
+            res.violation('%s/%s' % (PROP, t), w,
+                          {'part': 'long-lived', 'args': [gap,
+                                                          list(timeouts)]},
+                          size=gap)
+    return res
+
+
 def run(ctx):
     ctx.level = 'model_checking'
     ctx.rule = (
@@ -782,7 +845,9 @@ def run(ctx):
         'with the reason, completed ones stay, no timer remains, every '
         'registered and not cancelled callback on the connection and on '
         'every live proxy runs exactly once, and nothing fires when the '
-        'clock is run out' % (sorted(ENTRIES), ALL))
+        'clock is run out. C (long-lived process): a call outstanding '
+        'while 254..257 / 65534..65537 further messages are built, a second '
+        'call, then the loss' % (sorted(ENTRIES), ALL))
     ctx.assumptions = [
         'a dropped proxy (no reference left, gc run) is not "live": nothing '
         'is demanded of its callbacks',
@@ -790,6 +855,8 @@ def run(ctx):
     n = ctx.jobs * 2
     ctx.map(_task_connect, [(ctx.quick, i, n) for i in range(n)])
     ctx.map(_task_reconnect, [0])
+    from mcx import scale
+    ctx.map(_task_long_lived, scale.LADDER_SMALL[3:] + scale.LADDER_WORD)
     if ctx.quick:
         explore.explore(ctx, LossScenario, {'events': ALL}, max_depth=4,
                         label='loss: all events, depth 4')
@@ -827,6 +894,9 @@ def run(ctx):
 def replay(data):
     if 'scenario' in data:
         return explore.replay_violation(data)
+    if data.get('part') == 'long-lived':
+        return [('%s/%s' % (PROP, t), w)
+                for t, w in run_long_lived_loss(*data['args'])]
     if data.get('part') == 'reconnect':
         res = _task_reconnect(0)
         return [(s, v['what']) for s, v in res.violations.items()]
